@@ -58,6 +58,7 @@ package local
 //@   ensures [no-widening] wroteOnly(ba.keyLocationMap, lookupKey, lookupKey)
 //@   ensures [found-key-is-an-ancestor-key] wcount(ba.keyLocationMap) > old(wcount(ba.keyLocationMap)) ==>
 //@         (exists j :: 0 <= j && j < len(lookupKeys) && lookupKey == lookupKeys[j])
+//@   ensures [refresh-writes-the-canonical-key] born(canonicalKey) ==> canonicalKey == canonK(blobDigest)
 
 //@ func (*hierarchicalCASBlobAccess).Get$1
 //@   requires hInv(ba) && hUnlocked(ba) && putWriter != nil && b2 != nil && bsize(b2) == psize(putWriter)
